@@ -210,7 +210,7 @@ class WriterRun:
             # id argument identity
             pass
 
-    def on_aggregate(self, st, frame, rv, span):
+    def on_aggregate(self, st, frame, rv, span, place=None):
         if rv.get("agg") == "adt" and strip_generics(rv["path"]) == "errors::tag_writer::TagWriterError":
             st.tag = tuple(x for x in st.tag if x[0] != "err") + (("err", rv["variant"]),)
             st.ghost["err_id_ok"] = None
